@@ -107,7 +107,9 @@ def run_case(item):
                                                             unoptimized_contraction)
     from adcgen.generate_code.contraction import Contraction
     hyper = rng.random() < 0.35
-    g = TermGen(rng, spaces="ov", n_tensors=(2, 4), max_contracted=5, max_target=4,
+    spin = rng.random() < 0.25           # spin-labelled indices, target_spin given
+    g = TermGen(rng, spaces="ov", spin=spin, n_tensors=(2, 4) if not spin else (2, 3),
+                max_contracted=5 if not spin else 3, max_target=4 if not spin else 3,
                 names=["V", "f", "t1", "t2", "Y", "X", "c", "b", "d0"], exclude=(),
                 exponents=0.1, deltas=(0, 1), symbols=0.2, pool_size=4 if hyper else 6)
     try:
@@ -116,7 +118,9 @@ def run_case(item):
         return {"status": "skipped", "item": item}
     if term is S.Zero or not consistent_bks(term):
         return {"status": "skipped", "item": item}
-    allidx = sorted(term.atoms(Index), key=lambda s: (s.space, s.name))
+    allidx = sorted(term.atoms(Index), key=lambda s: (s.space, s.name, s.spin))
+    if spin and len({s.name for s in allidx}) != len(allidx):
+        return {"status": "skipped", "item": item}     # one name with two spins: the target string is ambiguous
     tir = IR.term_ir(term)
     cnt = Counter(IR.term_indices(tir))
     byir = {IR.idx_ir(s): s for s in allidx}
@@ -128,12 +132,14 @@ def run_case(item):
                 T.append(s)
     rng.shuffle(T)                                   # requested order
     tstr = "".join(s.name for s in T)
+    tspin = "".join(s.spin for s in T) if spin else None
     e = Expr(term, target_idx=T)
     t = e.terms[0]
-    res = {"item": item, "in": str(e), "target": tstr, "limits": f"max_itmd_dim={max_dim}, max_n={max_n}",
+    res = {"item": item, "in": str(e), "target": tstr + (f" spin {tspin}" if spin else ""),
+           "limits": f"max_itmd_dim={max_dim}, max_n={max_n}",
            "det": [], "status": "equal"}
     try:
-        scheme = optimize_contractions(t, tstr, None, max_dim, max_n)
+        scheme = optimize_contractions(t, tstr, tspin, max_dim, max_n)
     except RuntimeError as exc:
         if "Could not find a valid contraction scheme" in str(exc) and (max_dim is not None or max_n is not None):
             return dict(res, status="skipped", note="no scheme within the limits (documented RuntimeError)")
@@ -142,7 +148,7 @@ def run_case(item):
         return dict(res, status="skipped", note=str(exc)[:80])
     if isinstance(scheme, Contraction):
         scheme = [scheme]
-    unopt = unoptimized_contraction(t, tstr)
+    unopt = unoptimized_contraction(t, tstr, tspin)
     res["out"] = "; ".join(f"{c.contraction_name}={c.names}{tuple(tuple(map(str, i)) for i in c.indices)}->{tuple(map(str, c.target))}"
                            for c in scheme)[:600]
     res["n_steps"] = len(scheme)
@@ -228,7 +234,8 @@ def run_case(item):
                      if not o.sympy.is_number and not isinstance(o.base, Symbol)])
     ref = SchemeRef(steps, operand_ir, Tir)
     ref.irs = [IR.expr_ir(stripped)]
-    model = pick_model([IR.expr_ir(stripped)], set(Tir), MODELS, budget=60000)
+    model = pick_model([IR.expr_ir(stripped)], set(Tir),
+                       MODELS if not spin else [Model(2, 2, spin=True), Model(1, 1, spin=True)], budget=60000)
     try:
         oc = compare(ref, stripped, T, model, timeout_ms=TIMEOUT, seed=seed())
     except ValueError as exc:
